@@ -96,8 +96,9 @@ func (d *Device) handleKEYEvent(ie *input.InputEvent) {
 func (d *Device) handleABSEvent(ie *input.InputEvent) {
 	analog, analogOk := d.config.KeyMappings[d.mapping].Analog[ie.Source.Name][ie.Event.Code]
 
-	// emulated keys are tracked per axis of a sub-handler: two sub-handlers of one device may report the same axis code
-	identifier := fmt.Sprintf("%s/%d", ie.Source.Name, ie.Event.Code)
+	// the state of an axis (emulated keys, last value) is kept per axis of an event node: two nodes of one device may report
+	// the same axis code, under different sub-handler names or under the same one
+	identifier := fmt.Sprintf("%s/%s/%d", ie.Source.Name, ie.Source.DeviceInfo.Event(), ie.Event.Code)
 	identifierNeg := identifier + "_neg"
 
 	if !analogOk || analog.MappingType != config.AnalogKeySim {
@@ -170,7 +171,7 @@ func (d *Device) handleABSEvent(ie *input.InputEvent) {
 
 	// prevent from repeating value that was already sent before
 	// (the first event of an axis repeats nothing, whatever its value: an unsigned axis may well start at 0)
-	lastValue, seen := d.lastAnalogValue[ie.Source.Name][ie.Event.Code]
+	lastValue, seen := d.lastAnalogValue[identifier]
 	if seen && lastValue == value {
 		return
 	}
@@ -192,7 +193,7 @@ func (d *Device) handleABSEvent(ie *input.InputEvent) {
 	}
 	// only a value that got through is remembered: a position that was held back while learning must not count as
 	// "already sent" when it is reported again afterwards (the receiver would keep the learning-time value at rest)
-	d.lastAnalogValue[ie.Source.Name][ie.Event.Code] = shapedValue
+	d.lastAnalogValue[identifier] = shapedValue
 
 	if !d.noLogs {
 		log.Info(fmt.Sprintf("Analog event: %s", ie.Event.String()), d.logFields(
@@ -366,7 +367,7 @@ func (d *Device) ProcessEvents(inputEvents <-chan *input.InputEvent) {
 	// the LED refresh goroutine walks the trackers under this mutex until it notices the cancellation
 	d.eventProcessMutex.Lock()
 	for key := range d.noteTracker {
-		d.NoteOff(&input.InputEvent{
+		d.noteOff(key, &input.InputEvent{
 			Source: input.Handler{
 				Name:       key.subHandler,
 				DeviceInfo: input.DeviceInfo{Name: "shutdown cleanup"},
